@@ -22,6 +22,9 @@ RULE = ("valid stream: every task's valid (reference, estimate) generator incl. 
         "single-fault corruption per documented fault class and entry point: must raise ValueError "
         "(InvalidChordException for labels), never return a score, never another exception type")
 ASSUMPTIONS = ["fault classes are those a validator names or raises for (DESIGN §5 C14 scope rule)",
+               "the translator part `validators` and its run-time library lean/MirModel/PyVal.lean (NumPy operations on "
+               "shape + row-major data, no broadcasting between arrays, exception messages not evaluated, warnings skipped) "
+               "are assumed and exercised against the real validators and against NumPy by suite validators.gen_validators",
                "NaN values and non-array containers are not fault classes of this property"]
 UNPROVED = ["totality of the metric bodies on valid input is a theorem for the validators (Props/C14.lean) and for the "
             "models of melody, multipitch, transcription + transcription_velocity, the segment labelling metrics, "
@@ -34,6 +37,10 @@ UNPROVED = ["totality of the metric bodies on valid input is a theorem for the v
             "C14_Key is about MirModel/Key.lean's validateKey (regenerated from the source by the scalars_key "
             "translator part of C04); that it equals the validator model keyValidateKey of Props/C14.lean is compared "
             "(both against the real validate_key), not proved"]
+# the validators are also REGENERATED from the source (harness/translate/validators.py -> lean/MirGen/Validators.lean) and
+# proved equal to the hand-written model (Props/C14_GenVal.lean, picked up by the glob above); suite
+# `validators.gen_validators` runs the generated definitions (driver op `gen.validators`) against the real validators
+TRANSLATOR_PARTS = ["validators"]
 SUITES, _cl = SU.load_all(only=["validators"])
 
 
